@@ -128,8 +128,15 @@ class GroundedEffect:
             next_state_grounded_predicates = next_state_predicates.get(
                 lifted_predicate_str, set()
             )
-            next_state_grounded_predicates.add(predicate)
             next_state_predicates[lifted_predicate_str] = next_state_grounded_predicates
+            if predicate.untyped_representation in {
+                state_predicate.untyped_representation
+                for state_predicate in next_state_grounded_predicates
+            }:
+                # The fact already holds (possibly annotated with other types of the same objects).
+                continue
+
+            next_state_grounded_predicates.add(predicate)
 
     @staticmethod
     def _update_single_numeric_expression(
